@@ -2457,9 +2457,17 @@ Section C17Inter.
   Proof.
     intros p E. unfold fmt_inter. rewrite E.
     exists (@nofdec R RNum 0 0). split; [|rewrite nofdec_R; ring].
-    exact (parse_inter_term_text U U_num fmt_prec fmt_short None idR [] [c_zero] (@nofdec R RNum 0 0) []
-             (or_introl eq_refl) eq_refl eq_refl (fun v e H => match H with end) I
-             (or_introl ltac:(discriminate))).
+    assert (Hb : body_ok [c_zero] = true) by reflexivity.
+    assert (Hv : coef_val [] [c_zero] (@nofdec R RNum 0 0)).
+    { unfold coef_val. cbn [app]. change (@parse_dec R RNum [c_zero]) with (Some (@nofdec R RNum 0 0)). reflexivity. }
+    assert (Hvs : vars_ok fmt_prec fmt_short None idR []) by (intros v e []).
+    assert (Hs0 : @nil N = [] \/ @nil N = [c_minus]) by (left; reflexivity).
+    assert (Hso : strict_sorted (@nil (name * R))) by exact I.
+    assert (Hne : [c_zero] <> [] \/ @nil (name * R) <> []) by (left; discriminate).
+    change [c_zero] with ([] ++ [c_zero] ++ fmt_vars fmt_prec fmt_short None (@nil (name * R))) at 1.
+    rewrite (parse_inter_term_text U U_num fmt_prec fmt_short None idR [] [c_zero] (@nofdec R RNum 0 0) []
+               Hs0 Hb Hv Hvs Hso Hne).
+    reflexivity.
   Qed.
 
   Lemma c17_term : forall t : term R, wf_term t ->
@@ -2499,8 +2507,8 @@ Proof.
   assert (E : contains_char c_dot (x :: s) = contains_char c_dot s).
   { unfold contains_char. cbn [existsb]. destruct (N.eqb_spec c_dot x) as [X|_]; [congruence|reflexivity]. }
   rewrite E. destruct (contains_char c_dot s); [|reflexivity].
-  rewrite (trim_end_keep c_zero [] x s Hz). cbn [app].
-  rewrite (trim_end_keep c_dot [] x (trim_end c_zero s) Hd). reflexivity.
+  pose proof (trim_end_keep c_zero [] x s Hz) as K1. cbn [app] in K1. rewrite K1.
+  pose proof (trim_end_keep c_dot [] x (trim_end c_zero s) Hd) as K2. cbn [app] in K2. rewrite K2. reflexivity.
 Qed.
 
 Lemma Forall2_map_r {A B} (P : A -> B -> Prop) (f : A -> B) (l : list A) :
@@ -2630,3 +2638,18 @@ Section C17InterPrec.
     - apply Forall2_map_r. intros x Hx. apply prec_term_close, Hwf, Hx.
   Qed.
 End C17InterPrec.
+
+Lemma uclass_tab_num : forall c, (c < 128)%N -> u_numeric uclass_tab c = is_ascii_digit c.
+Proof.
+  intros c L.
+  pose proof (below128 (fun c => Bool.eqb (u_numeric uclass_tab c) (is_ascii_digit c))
+                ltac:(vm_compute; reflexivity) c L) as B.
+  apply eqb_prop in B. exact B.
+Qed.
+
+(* the executable `{:.p}` prints a negative value as "-" followed by the text of its magnitude
+   (first clause of prec_spec), zeros included ("-0.00" for -0.0) *)
+Lemma c17_fmt_prec_sign : forall (p : nat) (m : positive) (e : Z),
+  sf_fmt_prec p (S754_finite true m e) = c_minus :: sf_fmt_prec p (S754_finite false m e)
+  /\ sf_fmt_prec p (S754_zero true) = c_minus :: sf_fmt_prec p (S754_zero false).
+Proof. intros p m e. split; reflexivity. Qed.
